@@ -738,6 +738,9 @@ fn deep_nesting(kind: usize, depth: usize, long: bool, call_it: bool) -> Case {
         8 => format!("{}{}{}", rep(&|i| format!("l{} via (a{} => ", i, i)), payload, ")".repeat(d)),
         9 => format!("{}{}{}", rep(&|i| format!("(a{}, b{}?) => [a{}, // c{}\n", i, i, i, i)), payload, "]".repeat(d)),
         10 => format!("{}do {{\n  t = 1\n  return {}\n}}", rep(&|i| format!("a{} => ", i)), payload),
+        // conditionals nested in the condition position
+        12 => format!("{}c0 > 0{}", "if ".repeat(d), rep(&|i| format!(" then {} < a{} else {}", payload, i, i))),
+        13 => format!("{}c0{}", rep(&|i| format!("f{}(if ", i)), rep(&|i| format!(" then {} else a{})", payload, i))),
         _ => format!("{}{}{}", "-(".repeat(d), payload, ")".repeat(d)),
     };
     let text = if call_it { format!("a0 = 1\nx = {}\nx", body) } else { format!("x = {}", body) };
@@ -808,7 +811,7 @@ pub fn run(ctx: &mut Ctx) {
     }
     // (3b) one construct nested 1..48 deep (bracket-like kinds up to the 64 bound are covered by (4))
     let mut deep = Vec::new();
-    for kind in 0..12usize {
+    for kind in 0..14usize {
         for depth in [1usize, 2, 3, 5, 8, 12, 16, 20, 24, 32, 40, 48] {
             for long in [false, true] {
                 deep.push(deep_nesting(kind, depth, long, depth % 2 == 0));
